@@ -1093,6 +1093,13 @@ impl<A: Subject> Runner<A> {
             v.push(Viol { flag: O_RELEASE, class: "released-foreign-bytes".into(), msg: format!("{}: new segment [{},{}) is not inside the released extent [{},{})", op.short(), no, no + ext, boff, boff + bcap) });
           }
         }
+        for (no, ns) in &newn {
+          // a released range that cannot hold a node plus its data must be discarded, not listed
+          let (no, ext) = (*no as usize, 8 + *ns as usize);
+          if or & O_DISCARDED != 0 && (*ns == 0 || no < boff || no + ext > boff + bcap.max(hcap + off - boff)) {
+            v.push(Viol { flag: O_DISCARDED, class: "too-small-release-became-segment".into(), msg: format!("{}: release of [{},{}) ({} bytes) created segment [{},{}) with {} data bytes", op.short(), boff, boff + bcap, bcap, no, no + ext, ns) });
+          }
+        }
         if or & O_RELEASE != 0 && newn.len() > 1 {
           v.push(Viol { flag: O_RELEASE, class: "released-twice".into(), msg: format!("{}: {} new segments", op.short(), newn.len()) });
         }
